@@ -105,7 +105,100 @@ def mentions_unknown_tracked(prog, inv, body):
     return None
 
 
-def run_passes(prog, entries, crates, max_depth=7, max_passes=6, log=None, setup=None):
+def _analyse_entries(prog, inv, an, entries):
+    skipped = {}
+    for b in entries:
+        h = mentions_unknown_tracked(prog, inv, b)
+        if h is not None:
+            skipped[b.path] = h
+            continue
+        is_async = (prog.fns.get(b.raw_path) or {}).get('async')
+        for sub in instantiations(prog, b):
+            if is_async:
+                fr, out = absint_interp.analyze_async_entry(an, b, subst=sub)
+            else:
+                fr, out = an.analyze_entry(b, subst=sub)
+                inv.check_mut_self_exit(an, b, fr, out)
+    return skipped
+
+
+_PAR = {}
+
+
+def _worker(chunk_idx):
+    """analyse one chunk of entries in a forked child; returns only plain data"""
+    prog, inv, entries, max_depth, setup, subsume, chunks = _PAR['args']
+    an = absint_interp.new_analyzer(prog, max_depth=max_depth)
+    absint_inv.install(an, inv)
+    if setup:
+        setup(an)
+    if subsume:
+        an.subsume = {b.path for b in entries if mentions_unknown_tracked(prog, inv, b) is None}
+    inv.pending = {}
+    inv.rel_pending = {}
+    skipped = _analyse_entries(prog, inv, an, chunks[chunk_idx])
+    obl = [(k, o.ok, o.bad, o.subsumed, o.detail, o.bad_entries) for k, o in an.obl.items()]
+    return {'obl': obl, 'pending': inv.pending, 'rel_pending': inv.rel_pending, 'skipped': skipped, 'havoc': an.havoc_log, 'cha': an.cha_log,
+            'loops': an.loops, 'loop_iterators': an.loop_iterators, 'fn_contexts': an.fn_contexts, 'lossy': an.lossy_casts}
+
+
+def _parallel_pass(prog, inv, entries, max_depth, setup, subsume, jobs):
+    import multiprocessing as mp
+    from .absint import Obligation
+    # round-robin chunks (entries are sorted by path: neighbours tend to cost the same)
+    n = min(jobs * 3, len(entries))
+    chunks = [entries[i::n] for i in range(n)]
+    _PAR['args'] = (prog, inv, entries, max_depth, setup, subsume, chunks)
+    ctx_ = mp.get_context('fork')
+    with ctx_.Pool(min(jobs, n)) as pool:
+        results = pool.map(_worker, range(n), chunksize=1)
+    _PAR.clear()
+    an = absint_interp.new_analyzer(prog, max_depth=max_depth)
+    absint_inv.install(an, inv)
+    skipped = {}
+    for r in results:
+        skipped.update(r['skipped'])
+        for k, ok, bad, sub, detail, bad_entries in r['obl']:
+            o = an.obl.get(k)
+            if o is None:
+                o = Obligation(*k)
+                an.obl[k] = o
+            o.ok += ok
+            o.bad += bad
+            o.subsumed += sub
+            if o.detail is None:
+                o.detail = detail
+            for e, d in bad_entries.items():
+                o.bad_entries.setdefault(e, d)
+        for k, v in r['havoc'].items():
+            an.havoc_log[k] = an.havoc_log.get(k, 0) + v
+        an.cha_log.update(r['cha'])
+        for k, v in r['loops'].items():
+            an.loops.setdefault(k, set()).update(v)
+        if isinstance(an.loop_iterators, dict):
+            an.loop_iterators.update(r['loop_iterators'])
+        else:
+            an.loop_iterators |= r['loop_iterators']
+        for k, v in r['fn_contexts'].items():
+            an.fn_contexts[k] = an.fn_contexts.get(k, 0) + v
+        for k, v in r['lossy'].items():
+            an.lossy_casts.setdefault(k, []).extend(v)
+        # invariant recordings: same folding as Invariants.recorder / record_rel
+        for key, ok in r['rel_pending'].items():
+            inv.rel_pending[key] = inv.rel_pending.get(key, True) and ok
+        for head, rec in r['pending'].items():
+            tgt = inv.pending.setdefault(head, {})
+            for f, cur in rec.items():
+                old = tgt.get(f)
+                if old is None:
+                    tgt[f] = cur
+                else:
+                    vs = None if old[2] is None or cur[2] is None or len(old[2] | cur[2]) > 24 else (old[2] | cur[2])
+                    tgt[f] = (min(old[0], cur[0]), max(old[1], cur[1]), vs, old[3] + cur[3])
+    return an, skipped
+
+
+def run_passes(prog, entries, crates, max_depth=7, max_passes=6, log=None, setup=None, subsume=False, jobs=0):
     inv = absint_inv.Invariants(prog, crates)
     # only types whose slice field is not `pub` can carry an inferred invariant
     for head in list(inv.tracked):
@@ -122,24 +215,17 @@ def run_passes(prog, entries, crates, max_depth=7, max_passes=6, log=None, setup
     an = None
     skipped = {}
     for p in range(max_passes):
-        an = absint_interp.new_analyzer(prog, max_depth=max_depth)
-        absint_inv.install(an, inv)
-        if setup:
-            setup(an)
-        skipped = {}
         t0 = time.time()
-        for b in entries:
-            h = mentions_unknown_tracked(prog, inv, b)
-            if h is not None:
-                skipped[b.path] = h
-                continue
-            is_async = (prog.fns.get(b.raw_path) or {}).get('async')
-            for sub in instantiations(prog, b):
-                if is_async:
-                    fr, out = absint_interp.analyze_async_entry(an, b, subst=sub)
-                else:
-                    fr, out = an.analyze_entry(b, subst=sub)
-                    inv.check_mut_self_exit(an, b, fr, out)
+        if jobs and jobs > 1 and len(entries) > 8:
+            an, skipped = _parallel_pass(prog, inv, entries, max_depth, setup, subsume, jobs)
+        else:
+            an = absint_interp.new_analyzer(prog, max_depth=max_depth)
+            absint_inv.install(an, inv)
+            if setup:
+                setup(an)
+            if subsume:
+                an.subsume = {b.path for b in entries if mentions_unknown_tracked(prog, inv, b) is None}
+            skipped = _analyse_entries(prog, inv, an, entries)
         ch = inv.merge_pass()
         if log:
             log('pass %d: %d entries analysed, %d skipped (type not yet constructed), %d obligations, invariants changed=%s, %.1fs' % (
